@@ -3,6 +3,12 @@ use crate::{expr::Expr, parse::reval};
 
 impl Expr {
     pub fn parse(input: &str) -> Result<Self, Error> {
+        #[cfg(reval_verif)]
+        if crate::verif::enabled() && !crate::verif::in_parse() {
+            let result = crate::verif::within_parse(|| Expr::parse(input));
+            crate::verif::record_parse_expr(input, &result);
+            return result;
+        }
         reval::ExprParser::new()
             .parse(input)
             .map_err(|error| Error::ExprParseError(error.to_string()))
